@@ -171,6 +171,34 @@ def run(ctx):
         pend.append((case, gen.assign_str(res)))
         ctx.case('f' + lines[-1], sample=None)
         ctx.count('float-costs')
+    # through the public class: KAISAAssignment hands greedy_assignment exactly its gradient-worker groups, so every
+    # factor of a layer is inverted inside the group that is_grad_worker()/grad_worker_group() report for that layer
+    from kfac.assignment import KAISAAssignment
+    for _ in range(ctx.budget(150, 1500)):
+        w = rng.choice([1, 2, 3, 4, 6, 8, 12, 16])
+        k = rng.choice(gen.divisors(w))
+        col = rng.random() < 0.5
+        work = gen.gen_work(rng, nlayers=rng.choice([1, 2, 3, 5, 9, 20]))
+        case = {'work': work, 'world': w, 'grad_workers': k, 'colocate': col, 'stream': 'KAISAAssignment'}
+        try:
+            a = KAISAAssignment(work, local_rank=rng.randrange(w), world_size=w, grad_worker_fraction=k / w,
+                                group_func=lambda r: list(r), colocate_factors=col)
+            # (which of several equally loaded groups gets a layer depends on the order in which the class lists its
+            # groups — a CPython set order, modelled in C06 — so only order-independent facts are checked here)
+            got = {l: {f: a.inv_worker(l, f) for f in a.get_factors(l)} for l in a.get_layers()}
+            if set(got) != set(work) or any(set(got[l]) != set(work[l]) for l in work):
+                ctx.fail('KAISAAssignment does not assign every factor of every layer', case, 'kaisa-complete')
+            if col and any(len(set(got[l].values())) > 1 for l in work):
+                ctx.fail('co-located factors of a layer are inverted on different ranks', case, 'kaisa-colocate')
+            for l in work:
+                g = set(a.grad_worker_group(l))
+                if any(a.inv_worker(l, f) not in g for f in work[l]) or len(g) != k:
+                    ctx.fail(f'a factor of layer {l} is inverted outside the layer\'s gradient-worker group {sorted(g)}', case, 'kaisa-confined')
+                    break
+        except Exception as e:  # noqa: BLE001
+            ctx.fail(f'KAISAAssignment raised {type(e).__name__}: {e}', case, 'kaisa-raised')
+        ctx.evaluations += 1
+        ctx.count('kaisa-glue')
     outs = ctx.model.ask(lines)
     for (case, il), mo in zip(pend, outs):
         if mo is not None:
